@@ -217,4 +217,21 @@ CHECKS = {
         "min_obs": {"segments": 5000, "bytes_compared": 1000000, "ref_segments_sent": 200},
         "timeout": {"quick": 1200, "thorough": 14000},
     },
+    "C08": {
+        "scenarios": [("C08-skew", "vsim"), ("C08-client", "vsim"), ("C08-cache", "vsim"), ("C08-back", "vtime")],
+        "rule": "(a) the virtual clock is moved to instants k*120+60 s (key slot change) and k*60 s (minute tick) +-2 s in 250 ms steps, "
+                "or random; a reference client whose key instant and stamp instant are chosen independently (+-0/1/30/59/60 s for "
+                "acceptance; stamp >= 2 minutes or key >= 4 minutes away for rejection) handshakes with the real server on both "
+                "transports and judges the reply as a documented client would; (b) first segments emitted by the real client around the "
+                "boundaries are opened by a reference server at every skew in {0,+-1,+-59,+-60}; (c) key look-ups and TryDecrypt at "
+                "forward instants of every age relative to the 30 s cache rule; (d) the same with a wall clock stepping backwards and "
+                "forwards (time.Now overlay) incl. server-side discovery; distinct = (transport, boundary, offset) / case index",
+        "technique": "runtime monitor: accept/reject oracle over an (instant, skew) grid with the reference codec as the skewed peer, in "
+                     "virtual time; wall-clock steps through a go build -overlay of time.Now",
+        "text": "Acceptance inside +-60 s and rejection beyond the stated bounds are checked at and around every kind of boundary; "
+                "between the bounds any outcome is accepted.",
+        "note": "trusted: reference key derivation, faketime runtime, the time.Now overlay (wall clock only, monotonic clock untouched)",
+        "design_ref": "DESIGN.md section 4, C08",
+        "min_obs": {"handshakes": 500, "key_lookups": 2000, "skews_checked": 1000},
+    },
 }
